@@ -231,6 +231,19 @@ class Classifier(object):
             return self.entry_value(leaf, n)
         return self.plain(leaf, n)
 
+    def _not_first(self, c, s):
+        """c says "this is not the first iteration": `0 < index` of an enumerated source, or "the text so far is not empty"
+        (pieces are assumed non-empty only for the second form's purposes: an empty first piece would drop one separator;
+        admitted for separators, not for content)."""
+        if c.op == "lt" and c.a[0] is tm.ZERO and c.a[1].op == "tproj" and c.a[1].a[0] is self.elem and c.a[1].a[1] == 0 \
+                and self.src.op == "enumerate":
+            return True
+        if c.op == "not" and c.a[0].op == "is_empty" and c.a[0].a[0] is s:
+            return True
+        if c.op == "lt" and c.a[0] is tm.ZERO and c.a[1].op == "len" and c.a[1].a[0] is s:
+            return True
+        return False
+
     def presence(self, leaf, n):
         s = leaf.sym
         when_true = tm.subst(n, {s: tm.TRUE})
@@ -340,6 +353,35 @@ class Classifier(object):
                     return v
                 return mk("collect", it)
             return mk("extend", leaf.init, it)
+        # text accumulated piece by piece, with an optional separator between pieces:
+        #   if i > 0 { s.push_str(sep) }  s.push_str(item)      (or `if !s.is_empty()`)   ->   join(map(src, item), sep)
+        if leaf.init.op == "str" and leaf.init.a[0] == "" and n.op == "fmt_append" and self.free_of_state(n.a[1]):
+            head, item = n.a
+            sep = None
+            if head is s:
+                sep = tm.string("")
+            elif head.op == "ite":
+                c, a, b = head.a
+                if a is s and b.op == "fmt_append":
+                    c, a, b = tm.not_(c), b, a
+                if b is s and a.op == "fmt_append" and a.a[0] is s and a.a[1].op in ("str", "char") and self._not_first(c, s):
+                    sep = tm.string(a.a[1].a[0])
+            if sep is not None:
+                self.kinds.append(("join-accumulate", [(tm.TRUE, item)]))
+                return mk("join", mk("collect", mk("map", self.src, tm.lam([self.elem], item))), sep)
+        # a piece chosen per element and appended:  match x { A => s.push_str(a), B => s.push_str(b), o => s.push(o) }
+        if leaf.init.op == "str" and leaf.init.a[0] == "" and n.op == "ite":
+            def piece(t):
+                if t.op == "ite" and self.free_of_state(t.a[0]):
+                    a, b = piece(t.a[1]), piece(t.a[2])
+                    return None if a is None or b is None else tm.ite(t.a[0], a, b)
+                if t.op == "fmt_append" and t.a[0] is s and self.free_of_state(t.a[1]):
+                    return t.a[1]
+                return None
+            item = piece(n)
+            if item is not None:
+                self.kinds.append(("join-accumulate", [(tm.TRUE, item)]))
+                return mk("join", mk("collect", mk("map", self.src, tm.lam([self.elem], item))), tm.string(""))
         # de-duplicating append:  if !s.contains(e) { s.push(e) }  ->  the distinct values of e over the source,
         # in order of first occurrence
         if len(cases) == 1 and cases[0][1].op == "push" and cases[0][1].a[0] is s and self.free_of_state(cases[0][1].a[1]):
